@@ -668,7 +668,15 @@ fn gen_case(rng: &mut Rng, pattern: u64) -> Case {
         }
         if open {
             next_cid += 1;
-            let cid = format!("c{next_cid}{}", if rng.chance(1, 5) { "!r" } else { "" });
+            let mut cid = format!("c{next_cid}{}", if rng.chance(1, 5) { "!r" } else { "" });
+            // client order ids only have to be unique per instrument: sometimes a new order takes an id that is
+            // already in use on ANOTHER instrument (never one used on this instrument before)
+            if rng.chance(1, 6) {
+                let elsewhere: Vec<&(usize, String)> = known.iter().filter(|(i, c)| *i != instr && !known.iter().any(|(j, d)| *j == instr && d == c)).collect();
+                if !elsewhere.is_empty() {
+                    cid = elsewhere[rng.usize_below(elsewhere.len())].1.clone();
+                }
+            }
             known.push((instr, cid.clone()));
             ReqSpec { open, exchange, instr, cid }
         } else if !known.is_empty() && rng.chance(4, 5) {
